@@ -79,7 +79,12 @@ pub struct Cfg {
     /// (field of a returned struct / of a struct literal, tuple projection, `!`, `array_get` of a
     /// literal array) — must stay unevaluated when the left operand decides
     pub logic_rhs_shapes: bool,
+    /// coverage audit: the shapes of `progen_cov.rs` (arms of the semantic passes no other generator reached)
+    pub cov_shapes: bool,
 }
+
+#[path = "progen_cov.rs"]
+mod cov;
 
 struct StructD {
     fields: Vec<T>,
@@ -260,6 +265,9 @@ impl<'a> Gen<'a> {
             return self.leaf(t, scope, pre);
         }
         let d = depth - 1;
+        if self.cfg.cov_shapes && self.rng.chance(1, 5) && let Some(e) = cov::expr(self, t, scope, d, pre) {
+            return e;
+        }
         if self.cfg.src_forms && self.rng.chance(1, 4) {
             if let Some(e) = self.src_form(t, scope, d, pre) {
                 return e;
@@ -1171,6 +1179,9 @@ impl<'a> Gen<'a> {
     }
 
     fn stmt(&mut self, sc: &mut Scope, depth: usize, s: &mut String) {
+        if self.cfg.cov_shapes && self.rng.chance(1, 3) {
+            return cov::stmt(self, sc, depth, s);
+        }
         match self.rng.below(10) {
             0 | 1 if self.cfg.effects => {
                 self.feat("print-stmt");
@@ -2189,6 +2200,9 @@ fn show_lst[T: Show](l: Lst[T]) -> string { match l { Lst::Nil => ".", Lst::Cons
             writeln!(src, "impl Poke for int32 {{ fn poke(self: int32) -> unit {{ string_println(\"poke \" + int32_to_string(self)) }} }}").unwrap();
             writeln!(src, "impl Poke for S0 {{ fn poke(self: S0) -> unit {{ string_println(\"poke S0\") }} }}").unwrap();
             writeln!(src, "fn poke_via[T: Poke](x: T) -> unit {{ Poke::poke(x) }}").unwrap();
+        }
+        if self.cfg.cov_shapes {
+            cov::decls(self, &mut src);
         }
         if self.cfg.rich_generics {
             self.generic_library(&mut src);
